@@ -334,3 +334,70 @@ func verif_C18_isolation() {
 	verifAssert(a.extra == b.extra && b.extra == 0, "C18.isolation-consumes-exactly-its-replies")
 	verifReach("C18.isolation-end")
 }
+
+// verif_C18_same_mailbox: two recipients of one LMTP transaction that are the
+// same string, or differ only in the letter case of the local part or of the
+// domain. Each Rcpt call the caller made goes out as its own RCPT line and -
+// when accepted - gets its own status callback, in order, with its own verdict
+// (the server may well treat them as two mailboxes; that is not the client's
+// call).
+func verif_C18_same_mailbox() {
+	pair := [][]string{{"box@v", "box@v"}, {"Box@v", "box@v"}, {"u@Example.ORG", "u@example.org"}}[verifChoice(3)]
+	ok := []bool{nondetBool(), nondetBool()}
+	script := "250 2.0.0 ok\r\n250 2.1.5 ok\r\n250 2.1.5 ok\r\n354 go\r\n"
+	var want []vstatus
+	for i := 0; i < 2; i++ {
+		if ok[i] {
+			script += "250 2.0.0 <" + pair[i] + "> delivered\r\n"
+			want = append(want, vstatus{rcpt: pair[i]})
+		} else {
+			script += "550 5.1.1 <" + pair[i] + "> no mailbox " + strconv.Itoa(i) + "\r\n"
+			want = append(want, vstatus{pair[i], 550, EnhancedCode{5, 1, 1}, "<" + pair[i] + "> no mailbox " + strconv.Itoa(i)})
+		}
+	}
+	c, vc := verifClient(script, nil)
+	c.lmtp = true
+	verifAssert(c.Mail("s@v", nil) == nil, "C18.same-mailbox-mail")
+	verifAssert(c.Rcpt(pair[0], nil) == nil && c.Rcpt(pair[1], nil) == nil, "C18.same-mailbox-both-rcpt-accepted")
+	var got []vstatus
+	withCb := nondetBool()
+	var w io.WriteCloser
+	var err error
+	if withCb {
+		w, err = c.LMTPData(func(rcpt string, st *SMTPError) {
+			v := vstatus{rcpt: rcpt}
+			if st != nil {
+				v = vstatus{rcpt, st.Code, st.EnhancedCode, st.Message}
+			}
+			got = append(got, v)
+		})
+	} else {
+		w, err = c.Data()
+	}
+	verifAssert(err == nil, "C18.same-mailbox-data-started")
+	if err != nil {
+		return
+	}
+	w.Write([]byte("x\r\n"))
+	cerr := w.Close()
+	lines := verifSplitLines(vc.out)
+	n := 0
+	for _, l := range lines {
+		if len(l) > 8 && l[:8] == "RCPT TO:" {
+			verifAssert(n < 2 && l == "RCPT TO:<"+pair[n]+">", "C18.same-mailbox-one-rcpt-line-per-call")
+			n++
+		}
+	}
+	verifObserve("c18same", pair[0], pair[1], ok[0], ok[1], withCb, n, len(got), cerr == nil)
+	verifAssert(n == 2, "C18.same-mailbox-one-rcpt-line-per-call")
+	verifAssert(vc.pos == len(vc.in), "C18.same-mailbox-close-consumes-both-replies")
+	if withCb {
+		verifAssert(cerr == nil && len(got) == 2, "C18.same-mailbox-one-callback-per-call")
+		if len(got) == 2 {
+			verifAssert(got[0] == want[0] && got[1] == want[1], "C18.same-mailbox-own-verdict-in-order")
+		}
+	} else {
+		verifAssert((cerr == nil) == (ok[0] && ok[1]), "C18.same-mailbox-refusal-not-lost")
+	}
+	verifReach("C18.same-mailbox-end")
+}
